@@ -65,6 +65,7 @@ const zeroLimit = 512
 // Tracer receives the hook events of one parse at a time.
 type Tracer struct {
 	mu       sync.Mutex
+	foreign  map[interface{}]bool // scanners of earlier parses that have not closed yet
 	lexers   map[interface{}]int
 	protos   []*proto
 	events   []Ev
@@ -97,7 +98,7 @@ type LeakInfo struct {
 
 // NewTracer installs the hook.
 func NewTracer() *Tracer {
-	t := &Tracer{edges: map[string]struct{}{}, parked: make(chan string, 4)}
+	t := &Tracer{edges: map[string]struct{}{}, parked: make(chan string, 4), foreign: map[interface{}]bool{}}
 	parse.VerifLex = t.hook
 	return t
 }
@@ -108,6 +109,7 @@ func (t *Tracer) Uninstall() { parse.VerifLex = nil }
 // Begin starts the recording of one parse.
 func (t *Tracer) Begin(keep bool, stepCap int, sentinel bool) {
 	t.mu.Lock()
+	t.retireScanners()
 	t.lexers = map[interface{}]int{}
 	t.protos = t.protos[:0]
 	t.events = nil
@@ -120,6 +122,17 @@ func (t *Tracer) Begin(keep bool, stepCap int, sentinel bool) {
 	t.calls = 0
 	t.leaks = nil
 	t.mu.Unlock()
+}
+
+// retireScanners moves the scanners of the finished entry-point call that have
+// not closed their channel to the foreign set: whatever they still do (finish
+// late, or stay blocked for ever) is not an event of a later parse.
+func (t *Tracer) retireScanners() {
+	for l, x := range t.lexers {
+		if x-1 < len(t.protos) && t.protos[x-1].ph != 2 {
+			t.foreign[l] = true
+		}
+	}
 }
 
 // Progress is a counter that grows with every hook event.
@@ -195,6 +208,15 @@ func (t *Tracer) hook(ev string, l interface{}, a, b int) {
 	atomic.AddInt64(&t.counter, 1)
 	t.mu.Lock()
 	if t.lexers == nil {
+		t.mu.Unlock()
+		return
+	}
+	if t.foreign[l] {
+		// a scanner of an earlier parse (finishing late, or leaked)
+		t.stray++
+		if ev == "close" {
+			delete(t.foreign, l)
+		}
 		t.mu.Unlock()
 		return
 	}
@@ -332,6 +354,7 @@ func (t *Tracer) hook(ev string, l interface{}, a, b int) {
 		}
 		// soy.ParseGlobals calls parse.Expr once per line: the next entry-point
 		// call starts with fresh scanners (its trace is not shipped to TLC)
+		t.retireScanners()
 		t.lexers = map[interface{}]int{}
 		t.protos = nil
 		t.calls++
